@@ -532,6 +532,22 @@ def run_obligation(prop, hname, fn, cfg, seed=0, timeout_ms=20000, max_paths=200
             res["status"] = "violated"
             res["violation"] = {"label": why.get("failed"), "inputs": why.get("inputs"),
                                 "detail": "found by concrete validation run: " + str(why.get("detail"))[:1500]}
+    if validate and res["status"] in ("harness_error", "unconfirmed"):
+        # the symbolic run could not decide (e.g. the code uses a numpy function without a symbolic model): the
+        # verdict stays 'not decided' (exit 3) unless the same oracle fails on the real code for concrete inputs
+        # - that is a reproduced violation whatever found it
+        for k in range(6):
+            try:
+                ok, why = run_concrete(fn, cfg, None, seed=seed + 7919 * k)
+            except Exception:
+                break
+            if not ok:
+                res["notes"] = res.get("notes", []) + [f"symbolic run was {res['status']}; violation found by concrete run {k}"]
+                res["status"] = "violated"
+                res["violation"] = {"label": why.get("failed"), "inputs": why.get("inputs"),
+                                    "detail": "found by concrete validation run (symbolic run not decided): "
+                                              + str(why.get("detail"))[:1500]}
+                break
     if need_witness and res["status"] == "proved" and res.get("validation") != "ok":
         res["status"] = "vacuous"  # neither the solver nor a concrete run reached the assertions
     res["wall_s"] = round(time.time() - t0, 3)
